@@ -6,7 +6,7 @@ GROUPS.append(G("dbg_AddLineInfo", "harness/C19/h_asmdebug.c", "h_AddLineInfo", 
                 dfcc=False, object_bits=12, defs=["-DSTRINGSIZE=64"], functions=["AddLineInfo"], bounded="existing list of at most 2 records; MAP mode (one record per line)"))
 GROUPS.append(G("dbg_WriteCode", "harness/C04/h_as_writecode.c", "h_WriteCode", enforce=[], link=["asmdef.c"], stubs=["stubs/gerr.c"], unwind=14, timeout=600,
                 functions=["WriteCode"], object_bits=12, dfcc=False, defs=["-DSTRINGSIZE=64"]))
-GROUPS.append(G("book_BookKeeping", "harness/C19/h_asmsub_book.c", "h_BookKeeping", enforce=[], link=[], stubs=["stubs/gerr.c"], unwind=4, timeout=300,
+GROUPS.append(G("book_BookKeeping", "harness/C19/h_asmsub.c", "h_BookKeeping", enforce=[], link=[], stubs=["stubs/gerr.c"], unwind=4, timeout=300,
                 dfcc=False, object_bits=12, functions=["BookKeeping", "ProgCounter"]))
 TRUSTED_BASE = ["GetFileNum / AddAddressRange logging stubs", "stubs of h_as_writecode.c"]
 ASSUMPTIONS = []
